@@ -89,3 +89,14 @@ func DefaultRtpUnpackerFactory(payloadType base.AvPacketPt, clockRate int, maxSi
 	}
 	return NewRtpUnpackContainer(maxSize, protocol)
 }
+
+// rtpTimestamp2Ms rtp时间戳按clockRate转换为毫秒
+//
+// clockRate小于1000时（合法的音视频时钟频率不会出现，只会来自错误的sdp）没有整数个tick对应1毫秒，按1个tick处理，避免除0
+func rtpTimestamp2Ms(timestamp uint32, clockRate int) int64 {
+	ticksPerMs := uint32(clockRate / 1000)
+	if ticksPerMs == 0 {
+		ticksPerMs = 1
+	}
+	return int64(timestamp / ticksPerMs)
+}
